@@ -65,7 +65,13 @@ def NDArray.resolve (a : NDArray V) (cnt off : Idx) : Except Err (Idx × Idx) :=
     if prod cnt == prod a.shape then .ok (zeros a.shape.length, a.shape) else .error .h5Error
   else
     let cnt' := if cnt.isEmpty then List.replicate off.length 1 else cnt
-    if a.boxOk off cnt' then .ok (off, cnt') else .error .h5Error
+    -- `DataSpace::hyperslab` (fix de0d7a0): one entry per dimension of the data is needed from both; `H5Sselect_hyperslab` reads
+    -- exactly that many — surplus entries only count for the memory space, whose element count must then agree with the selection
+    let r := a.shape.length
+    if cnt'.length < r || off.length < r then .error .invalidRank else
+    let c := cnt'.take r
+    let o := off.take r
+    if a.boxOk o c && prod cnt' == prod c then .ok (o, c) else .error .h5Error
 
 /-- hyperslab read: the elements of the box in row-major order -/
 def NDArray.read (a : NDArray V) (cnt off : Idx) : Except Err (List V) :=
